@@ -58,10 +58,17 @@ def build_aave(sim, mw):
     # path hands a later market the parameters of an earlier one
     path = os.path.join(tmp, "risk-parameters.csv")
     tokens = [t.upper() for t in mw["tokens"]]
-    write_risk_csv(path, tokens, mw["risk"], sim.world.get("tokens", {}))
+    # two markets of one run that use the same table load the same FILE (written once, not touched in between); a market
+    # with another table finds the file rewritten
+    sig = repr((tokens, sorted((t, sorted(r.items())) for t, r in mw["risk"].items())))
+    if getattr(sim, "_risk_file_sig", None) != sig or not os.path.exists(path):
+        write_risk_csv(path, tokens, mw["risk"], sim.world.get("tokens", {}))
+        sim._risk_file_sig = sig
     infos = [sim.token(t) for t in tokens]
     market = AaveV3Market(MarketInfo(mw["name"], MarketTypeEnum.aave_v3), path, tokens=infos)  # real load_risk_parameter
-    os.unlink(path)
+    if mw is sim.world["markets"][-1] or not any(m_.get("kind") == "aave" for m_ in sim.world["markets"][sim.world["markets"].index(mw) + 1:]):
+        os.unlink(path)  # the last lending market of the world has loaded: nothing is left behind for the next scenario
+        sim._risk_file_sig = None
     n = len(sim.index)
     if mw.get("via_files"):
         _load_through_files(sim, mw, market, tokens, tmp)
@@ -376,13 +383,17 @@ def _edit_risk(sim, m, a):
 
     t = a["token"].upper()
     ltv, lt = int(a["ltv"]), int(a["lt"])
+    bonus = a.get("bonus")  # basis points above 10000, as in the file
 
     def thunk():
         rp_ = m.risk_parameters
         rp_.loc[t, "baseLTVasCollateral"] = D(ltv) / D(10000)
         rp_.loc[t, "reserveLiquidationThreshold"] = D(lt) / D(10000)
         RA.ref_for(sim, m).risk[t].update(ltv=Fraction(ltv, 10000), lt=Fraction(lt, 10000))
-        return [t, ltv, lt]
+        if bonus is not None:
+            rp_.loc[t, "reserveLiquidationBonus"] = D(int(bonus) - 10000) / D(10000)
+            RA.ref_for(sim, m).risk[t].update(bonus=Fraction(int(bonus) - 10000, 10000))
+        return [t, ltv, lt, bonus]
 
     return thunk
 
